@@ -98,6 +98,24 @@ pub fn td_from_ns(ns: i128) -> Option<chrono::TimeDelta> {
     chrono::TimeDelta::new(secs, nanos)
 }
 
+/// Is a `NaiveDate` chrono handed out internally consistent? Reads the calendar accessors under the
+/// panic monitor and compares them with the reference calendar at the value's own day number. (A
+/// value can carry the right day number and still be invalid — e.g. ordinal 366 of a common year —
+/// in which case the table-driven accessors panic or disagree.)
+pub fn date_defect(d: &NaiveDate) -> Option<String> {
+    match crate::mon::guard(|| (d.num_days_from_ce() as i64, d.year() as i64, d.month() as i64, d.day() as i64, d.ordinal() as i64, d.weekday().num_days_from_monday() as i64)) {
+        Err(p) => Some(format!("an accessor panics: {} at {}", p.msg, p.site())),
+        Ok((n, y, m, dd, o, wd)) => {
+            let (ry, rm, rd) = rc::civil_from_days(n);
+            if (y, m, dd) != (ry, rm, rd) || o != rc::ordinal_of(ry, rm, rd) || wd != rc::weekday(n) {
+                Some(format!("day number {} is {}-{}-{} (ordinal {}, weekday {}), accessors say {}-{}-{} (ordinal {}, weekday {})", n, ry, rm, rd, rc::ordinal_of(ry, rm, rd), rc::weekday(n), y, m, dd, o, wd))
+            } else {
+                None
+            }
+        }
+    }
+}
+
 pub fn self_test() -> Result<(), String> {
     let e = NaiveDate::from_ymd_opt(1970, 1, 1).unwrap().and_hms_opt(0, 0, 0).unwrap();
     let r = RDt::of(&e);
